@@ -148,6 +148,7 @@ class Trace:
         self.undecided: List[str] = []           # tests that K does not decide and that guard different calls
         self.appended: List[Tuple[str, ast.AST, List[ast.AST]]] = []   # (receiver, value, residual conditions) for x.append(v)
         self.stores: List[Tuple[ast.AST, ast.AST, List[ast.AST]]] = []  # (target, value, conditions) for subscript/attribute stores
+        self.subscripts: List[Tuple[ast.Subscript, List[ast.AST]]] = []  # subscript reads reached (in the residual expressions), with the conditions
 
 
 def run(fn: ast.FunctionDef, subject: str, K: str, inside: Optional[List[ast.stmt]] = None) -> Trace:
@@ -156,6 +157,9 @@ def run(fn: ast.FunctionDef, subject: str, K: str, inside: Optional[List[ast.stm
 
     def collect(e: ast.AST, env, conds):
         r = residual(e, subject, K, env)
+        for c in ast.walk(e):
+            if isinstance(c, ast.Subscript) and isinstance(c.ctx, ast.Load):
+                tr.subscripts.append((c, list(conds)))
         for c in ast.walk(r):
             if isinstance(c, ast.Call):
                 tr.calls.append(c)
